@@ -66,7 +66,7 @@ LBook(st, ids) ==
      parked |-> [i \in 1..Len(st.parked) |-> [v |-> st.parked[i][1], rep |-> st.parked[i][2]]],
      wgt |-> st.wgt, thr |-> st.thr, loaded |-> st.loaded, gen |-> st.gen]
 
-LVtx(r) == [trx |-> [id |-> r.trx.id, iss |-> r.trx.iss, rcv |-> r.trx.rcv, amt |-> r.trx.amt, data |-> r.trx.data],
+LVtx(r) == [trx |-> [id |-> r.trx.id, iss |-> r.trx.iss, rcv |-> r.trx.rcv, amt |-> r.trx.amt, data |-> r.trx.data, nc |-> r.trx.nc],
             sealer |-> r.sealer, l |-> r.l, r |-> r.r, w |-> r.w, ok |-> r.ok]
 
 \* equality of books up to the weight / throughput counters
@@ -97,7 +97,7 @@ EvReset(ev) ==
     /\ vtx' = <<>>
     /\ inflight' = [n \in Node |-> {}]
     /\ trxu' = {[id |-> ev.cfg.trx[i].id, iss |-> ev.cfg.trx[i].iss, rcv |-> ev.cfg.trx[i].rcv,
-                 amt |-> ev.cfg.trx[i].amt, data |-> ev.cfg.trx[i].data] : i \in DOMAIN ev.cfg.trx}
+                 amt |-> ev.cfg.trx[i].amt, data |-> ev.cfg.trx[i].data, nc |-> ev.cfg.trx[i].nc] : i \in DOMAIN ev.cfg.trx}
     /\ obs' = [GoodObs EXCEPT !.a = "Reset",
                !.conf = /\ ToSet(ev.cfg.nodes) = Node /\ ToSet(ev.cfg.wallets) = Wallet /\ ev.cfg.gr = GR
                         /\ ev.cfg.supply = Supply /\ ev.cfg.truncDepth = TruncDepth]
